@@ -352,7 +352,8 @@ fn bcrypt(t: &[&str]) -> String {
 #[cfg(feature = "hazmat")]
 fn hazmat(t: &[&str]) -> String {
     use aes::hazmat;
-    use aes::{Block, Block8};
+    use aes::Block;
+    use aes::hazmat::Block8;
     let arg = |i: usize| -> Option<Vec<u8>> { t.get(i).and_then(|s| unhex(s)) };
     let Some(b) = arg(2) else { return "bad-op".into() };
     let k = arg(3);
